@@ -359,6 +359,7 @@ type State struct {
 	steps    int
 	dead     bool
 	freshRefs map[string]bool
+	nonzero  map[string]bool
 	shadow   map[string]SVal // engine-side values (handles, closures) stored in cells of objects allocated on this path
 	pendingBoxes []boxInit
 	arrDefs  map[string]arrDef
@@ -403,6 +404,10 @@ func (st *State) clone() *State {
 	n.freshRefs = make(map[string]bool, len(st.freshRefs))
 	for k := range st.freshRefs {
 		n.freshRefs[k] = true
+	}
+	n.nonzero = make(map[string]bool, len(st.nonzero))
+	for k := range st.nonzero {
+		n.nonzero[k] = true
 	}
 	n.shadow = make(map[string]SVal, len(st.shadow))
 	for k, v := range st.shadow {
@@ -751,23 +756,68 @@ func (st *State) heapSetInner(key string, prev, idx, val *Term) {
 	st.arrDefs[st.heap.vers[key].S] = arrDef{prev, idx, val}
 }
 
-// isOldTerm: the term is built from entry-state symbols only (parameters, entry versions of arrays,
-// literals), so as a reference it denotes an object that existed at entry.
-func isOldTerm(t *Term) bool {
-	s := t.S
-	if strings.ContainsAny(s, "#@") {
+// isOldTerm: as a reference, the term denotes an object that existed at entry: a literal, a parameter, a
+// value read from an entry-state array (any index: entry-state arrays only hold entry-state references),
+// or an ite of such terms.
+func isOldTerm(t *Term) bool { return isOldStr(t.S) }
+
+func sexpArgs(s string) []string {
+	// s = "(op a b c)" -> [op a b c] splitting at top level, respecting |quoted symbols|
+	s = s[1 : len(s)-1]
+	var out []string
+	depth, start, quoted := 0, 0, false
+	for i := 0; i < len(s); i++ {
+		c := s[i]
+		switch {
+		case c == '|':
+			quoted = !quoted
+		case quoted:
+		case c == '(':
+			depth++
+		case c == ')':
+			depth--
+		case c == ' ' && depth == 0:
+			if i > start {
+				out = append(out, s[start:i])
+			}
+			start = i + 1
+		}
+	}
+	if start < len(s) {
+		out = append(out, s[start:])
+	}
+	return out
+}
+
+func isOldStr(s string) bool {
+	if s == "" {
 		return false
 	}
-	for _, tok := range strings.FieldsFunc(s, func(r rune) bool { return r == '(' || r == ')' || r == ' ' }) {
-		if i := strings.Index(tok, "!"); i >= 0 && !strings.HasPrefix(tok, "p.") && !strings.HasPrefix(tok, "|") {
-			// a generated constant (fresh value) other than a parameter
-			return false
+	if s[0] != '(' {
+		if s[0] >= '0' && s[0] <= '9' {
+			return true
 		}
-		if tok == "A0" || strings.HasPrefix(tok, "A!") {
-			return false
-		}
+		return strings.HasPrefix(s, "p.")
 	}
-	return true
+	a := sexpArgs(s)
+	if len(a) == 0 {
+		return false
+	}
+	switch a[0] {
+	case "select":
+		if len(a) != 3 {
+			return false
+		}
+		arr := a[1]
+		if arr[0] == '(' {
+			// nested select of an entry-state two-level array
+			return isOldStr(arr)
+		}
+		return !strings.ContainsAny(arr, "#@") && !(strings.Contains(arr, "!") && !strings.HasPrefix(arr, "|"))
+	case "ite":
+		return len(a) == 4 && isOldStr(a[2]) && isOldStr(a[3])
+	}
+	return false
 }
 
 // innerArray resolves the inner array stored at base in a two-level array version, looking through
@@ -902,6 +952,14 @@ func (st *State) load(h *HeapView, a *AddrV) SVal {
 			return v
 		}
 	}
+	if su, ok := a.Type.Underlying().(*types.Struct); ok && !isOpaque(a.Type) {
+		// field by field, so that each field can come from the shadow memory
+		sv := &StructV{Typ: a.Type}
+		for i := 0; i < su.NumFields(); i++ {
+			sv.F = append(sv.F, st.load(h, st.fieldAddr(a, i)))
+		}
+		return sv
+	}
 	ls := st.e.leaves(a.Type)
 	ts := make([]*Term, 0, len(ls))
 	for _, l := range ls {
@@ -926,13 +984,22 @@ func (st *State) store(a *AddrV, v SVal) {
 			}
 		}
 	}
-	if isEngineVal(v) || (st.isFreshBase(a) && v != nil) {
+	if v != nil && a.Kind != "global" {
 		if st.shadow == nil {
 			st.shadow = map[string]SVal{}
 		}
 		st.shadow[sk] = v
 	} else {
 		delete(st.shadow, sk)
+	}
+	if su, ok := a.Type.Underlying().(*types.Struct); ok && !isOpaque(a.Type) {
+		if sv, ok := v.(*StructV); ok && len(sv.F) == su.NumFields() {
+			delete(st.shadow, sk)
+			for i := 0; i < su.NumFields(); i++ {
+				st.store(st.fieldAddr(a, i), sv.F[i])
+			}
+			return
+		}
 	}
 	ls := st.e.leaves(a.Type)
 	if len(ls) == 0 {
